@@ -309,6 +309,10 @@ class TypeMap:
     def info(self, qual):
         """returns dict(ctype=..., kind=scalar|vec|class|engine|opaque, ref=bool, ptr=bool)"""
         q = qual.strip()
+        # element type spelled through the allocator traits (type of `auto const& x = v.back()` etc.): the element type itself
+        m = re.search(r'__gnu_cxx::__alloc_traits<std::allocator<(.+)>, \1>::value_type', q)
+        if m:
+            q = q.replace(m.group(0), m.group(1))
         ref = q.endswith('&&') or q.endswith('&')
         q = q.rstrip('&').strip()
         ptr = q.endswith('*')
